@@ -39,6 +39,7 @@ type Thread struct {
 	beginClock int
 	inv        int
 	lastOp     int
+	noBlock    string // non-empty: this thread must never be disabled (e.g. inside a Try* call)
 	// result handed over by a rendezvous partner
 	handed bool
 	hcase  int
@@ -60,30 +61,31 @@ var abortSentinel = abortT{}
 
 // Sched is one execution.
 type Sched struct {
-	threads  []*Thread
-	cur      *Thread
-	prefix   []int
-	Points   []Point
-	aborting bool
-	ended    bool
-	Deadlock bool
-	Blocked  []string
-	Panic    string
-	Livelock bool
-	Steps    int
-	maxSteps int
-	fin      chan struct{}
-	wg       sync.WaitGroup
-	tracing  bool
-	Trace    []string
-	objs     []uintptr // canonical object numbering (first use)
-	objHash  []objH
-	chans    []*chanModel
-	visit    func(key uint64, preemptions int) bool // state-cache hook: false = prune here
-	Pruned   bool
-	rtAcc    uint64 // commutative hash of the set of API calls that have returned (real-time order)
-	clock    int    // logical clock; every stamp is unique
-	preempt  int
+	threads         []*Thread
+	cur             *Thread
+	prefix          []int
+	Points          []Point
+	aborting        bool
+	ended           bool
+	Deadlock        bool
+	Blocked         []string
+	Panic           string
+	Livelock        bool
+	Steps           int
+	maxSteps        int
+	fin             chan struct{}
+	wg              sync.WaitGroup
+	tracing         bool
+	Trace           []string
+	objs            []uintptr // canonical object numbering (first use)
+	objHash         []objH
+	chans           []*chanModel
+	visit           func(key uint64, preemptions int) bool // state-cache hook: false = prune here
+	Pruned          bool
+	NoBlockViolated string
+	rtAcc           uint64 // commutative hash of the set of API calls that have returned (real-time order)
+	clock           int    // logical clock; every stamp is unique
+	preempt         int
 }
 
 type objH struct {
@@ -221,7 +223,15 @@ func trimStack(st string) string {
 	var out []string
 	for i := 0; i+1 < len(lines); i++ {
 		if strings.Contains(lines[i+1], "/repo/") || strings.Contains(lines[i+1], "/overlay/") {
-			out = append(out, strings.TrimSpace(lines[i])+" @ "+strings.TrimSpace(lines[i+1]))
+			fn := strings.TrimSpace(lines[i])
+			if k := strings.LastIndex(fn, "("); k > 0 {
+				fn = fn[:k] // argument values are not deterministic
+			}
+			loc := strings.TrimSpace(lines[i+1])
+			if k := strings.Index(loc, " +0x"); k > 0 {
+				loc = loc[:k]
+			}
+			out = append(out, fn+" @ "+loc)
 		}
 	}
 	if len(out) > 8 {
@@ -355,6 +365,8 @@ func (s *Sched) switchFrom(t *Thread) {
 	for _, x := range s.threads {
 		if x != t && s.isReady(x) {
 			enabled = append(enabled, x)
+		} else if x.noBlock != "" && !x.done && x.pend != nil && s.NoBlockViolated == "" && (x != t || !runEnabled) && s.othersStable(x) {
+			s.NoBlockViolated = fmt.Sprintf("T%d(%s) is blocked at %s although it is inside %s and every other thread is parked in harness code, blocked or finished", x.ID, x.Name, x.pend.Kind, x.noBlock)
 		}
 	}
 	if len(enabled) == 0 {
@@ -549,6 +561,9 @@ type Exec struct {
 	Steps    int
 	Races    int
 	Trace    []string
+	// NoBlockViolated describes a thread that was disabled while it had declared (NoBlock)
+	// that it must not be.
+	NoBlockViolated string
 }
 
 // Config of one run.
@@ -577,7 +592,7 @@ func Run(cfg RunConfig, body func(s *Sched)) *Exec {
 	s.wg.Wait()
 	cur = nil
 	raceJoin()
-	x := &Exec{Points: s.Points, Deadlock: s.Deadlock, Blocked: s.Blocked, Panic: s.Panic, Livelock: s.Livelock, Pruned: s.Pruned, Steps: s.Steps, Trace: s.Trace}
+	x := &Exec{Points: s.Points, Deadlock: s.Deadlock, Blocked: s.Blocked, Panic: s.Panic, Livelock: s.Livelock, Pruned: s.Pruned, Steps: s.Steps, Trace: s.Trace, NoBlockViolated: s.NoBlockViolated}
 	x.Choices = make([]int, len(s.Points))
 	for i, p := range s.Points {
 		x.Choices[i] = p.Chosen
@@ -627,4 +642,38 @@ func Now() int {
 		return 0
 	}
 	return s.cur.lastOp + 1
+}
+
+// NoBlock declares that the running thread must not be disabled until NoBlock("") (used
+// around Try* calls and around acquisitions that nothing may delay). A violation is
+// reported in Exec.NoBlockViolated.
+//
+//go:norace
+func NoBlock(what string) {
+	if s := cur; s != nil {
+		s.cur.noBlock = what
+	}
+}
+
+// othersStable reports whether every thread other than x is finished, disabled, or parked
+// at a harness-level point (Kind "h.*"): none of them is in the middle of a library call
+// that will complete on its own. A NoBlock thread that is disabled in such a state is
+// blocked by something that is *held*, not by a short internal critical section.
+//
+//go:norace
+func (s *Sched) othersStable(x *Thread) bool {
+	for _, y := range s.threads {
+		if y == x || y.done || y.pend == nil {
+			continue
+		}
+		k := y.pend.Kind
+		if len(k) >= 2 && k[0] == 'h' && k[1] == '.' {
+			continue
+		}
+		if !s.isReady(y) {
+			continue
+		}
+		return false
+	}
+	return true
 }
